@@ -116,7 +116,7 @@ def run_c14(tier, seed):
     rng = random.Random(seed * 101 + 7)
     states = []        # (tree, text) for the model comparison
     # G-rich documents, pristine
-    for k in range(120 if tier == 'quick' else 1500):
+    for k in range(120 if tier == 'quick' else 10000):
         with_cr = (k % 6 == 0)
         src = to_source(rich_doc(rng, with_cr))
         ro = impl.load(src)
@@ -130,7 +130,7 @@ def run_c14(tier, seed):
             states.append((tree, text))
         oc.count('rich-docs')
     # every state of live histories
-    n_hist = 80 if tier == 'quick' else 800
+    n_hist = 80 if tier == 'quick' else 5000
     for hs in range(n_hist):
         hseed = seed * 6007 + 29 * hs
         hrng = random.Random(hseed)
